@@ -301,6 +301,10 @@ func explicitConstraintType(typeParam *types.Var) (t types.Type) {
 			return t.Term(0).Type()
 		}
 	}
+	// `comparable` is not a type: any comparable type serves as the argument of the ensure line
+	if underlying.IsComparable() {
+		return types.Typ[types.Int]
+	}
 	return nil
 }
 
